@@ -76,8 +76,26 @@ inline void circle(const ExQ&a, mpq_class& c, mpq_class& s){
   mpq_class t2=t*t, d=1+t2;
   c=(1-t2)/d; s=2*t/d;
 }
-inline ExQ sin(const ExQ&a){ mpq_class c,s; circle(a,c,s); return logged(O_SIN,a,ExQ(0),s); }
-inline ExQ cos(const ExQ&a){ mpq_class c,s; circle(a,c,s); return logged(O_COS,a,ExQ(0),c); }
+// angles returned by atan2 are remembered (per case) together with the exact unit point they came
+// from, so that cos/sin(atan2(y,x)) = (x,y)/r exactly whenever r is rational: round trips through
+// angles are then exact over the rationals, and exact predicates need no tolerance.
+struct cmp_mpq { bool operator()(const mpq_class&a,const mpq_class&b) const { return cmp(a,b)<0; } };
+inline std::map<mpq_class,std::pair<mpq_class,mpq_class>,cmp_mpq>& angle_registry(){
+  static std::map<mpq_class,std::pair<mpq_class,mpq_class>,cmp_mpq> m; return m; }
+inline void circle_reg(const ExQ&a, mpq_class& c, mpq_class& s){
+  auto& R=angle_registry(); auto it=R.find(a.v);
+  if(it!=R.end()){ c=it->second.first; s=it->second.second; return; }
+  circle(a,c,s);
+}
+inline ExQ sin(const ExQ&a){ mpq_class c,s; circle_reg(a,c,s); return logged(O_SIN,a,ExQ(0),s); }
+inline ExQ cos(const ExQ&a){ mpq_class c,s; circle_reg(a,c,s); return logged(O_COS,a,ExQ(0),c); }
+inline bool exact_sqrt(const mpq_class& a, mpq_class& r){
+  if(a<0) return false;
+  if(mpz_perfect_square_p(a.get_num_mpz_t()) && mpz_perfect_square_p(a.get_den_mpz_t())){
+    mpz_class n,d; mpz_sqrt(n.get_mpz_t(),a.get_num_mpz_t()); mpz_sqrt(d.get_mpz_t(),a.get_den_mpz_t());
+    r=mpq_class(n,d); r.canonicalize(); return true; }
+  return false;
+}
 inline ExQ sqrt(const ExQ&a){
   if(a.v<0) return logged(O_SQRT,a,ExQ(0),mpq_class(0));
   if(mpz_perfect_square_p(a.v.get_num_mpz_t()) && mpz_perfect_square_p(a.v.get_den_mpz_t())){
@@ -89,7 +107,20 @@ inline ExQ sqrt(const ExQ&a){
 }
 inline ExQ acos(const ExQ&a){ double x=a.to_double(); if(x>1)x=1; if(x<-1)x=-1; return logged(O_ACOS,a,ExQ(0),rnd(std::acos(x),50)); }
 inline ExQ atan2(const ExQ&y,const ExQ&x){
-  return logged(O_ATAN2,y,x,rnd(std::atan2(y.to_double(),x.to_double()),50));
+  mpq_class al=rnd(std::atan2(y.to_double(),x.to_double()),50);
+  mpq_class r2=x.v*x.v+y.v*y.v, r;
+  if(r2!=0 && al!=0 && exact_sqrt(r2,r)){
+    auto& R=angle_registry();
+    mpq_class c=x.v/r, s=y.v/r;
+    // make the rational standing for the angle unique to the unit point (two distinct points closer
+    // than 2^-50 must not share an angle): perturb it by a hash of the point at relative level 2^-56
+    std::string key=c.get_str()+"|"+s.get_str(); unsigned long h=1469598103934665603UL;
+    for(char ch: key){ h^=(unsigned char)ch; h*=1099511628211UL; }
+    mpq_class pert(mpz_class(h & 0xffffffUL), mpz_class(1)); pert/=mpq_class(mpz_class(1)<<80);
+    al = al*(1+pert);
+    if(!R.count(al)){ R[al]=std::make_pair(c,s); R[-al]=std::make_pair(c,mpq_class(-s)); }
+  }
+  return logged(O_ATAN2,y,x,al);
 }
 inline ExQ abs(const ExQ&a){return a.v<0? -a : a;}
 inline ExQ fabs(const ExQ&a){return abs(a);}
